@@ -11,6 +11,15 @@
 //!       `variations::instance` returns), and all 65 536 F2Dot14 values through the
 //!       F2Dot14 <-> Fixed <-> f32 conversions.
 //!
+//! Round 3: every fvar table is written according to a *layout* (axesArrayOffset, axisSize,
+//! instanceSize, instance count; positions of the records computed by TLC for generated cases), the
+//! bytes that belong to no record are filled with a decoy axis record; `FvarRead` events record what
+//! `FvarTable::read` / `axes()` / `instances()` see in such a table (judged against the table bytes by
+//! Normalize!FvarAxes / FvarInstances).  Random segment maps cover the general class (to-coordinates
+//! over the whole 2.14 range, decreasing / flat segments, duplicate from-coordinates, missing -1/0/+1
+//! records, one-record maps); repository fonts are also instanced with a re-laid-out fvar and such an
+//! avar table.
+//!
 //! The harness decides nothing: it builds bytes, calls allsorts, records what came back.
 use allsorts::binary::read::ReadScope;
 use allsorts::font_data::FontData;
@@ -20,7 +29,7 @@ use allsorts::tables::{F2Dot14, Fixed, FontTableProvider};
 use rand::rngs::StdRng;
 use rand::{Rng, SeedableRng};
 use serde_json::{json, Value};
-use vh::fontgen::{be16, be32, read_sfnt_dir, table_bytes, W};
+use vh::fontgen::{be16, be32, build_sfnt, read_sfnt_dir, table_bytes, tag_str, W};
 use vh::sup::{guarded, panic_key, Outcome};
 use vh::util::{read_ndjson, repo_fonts, NdWriter};
 
@@ -29,14 +38,98 @@ type Map = Vec<(i16, i16)>;
 
 // ---- table synthesis --------------------------------------------------------------------
 
-fn fvar_bytes(axes: &[Axis]) -> Vec<u8> {
-    let mut w = W::new();
-    w.u16(1).u16(0).u16(16).u16(2).u16(axes.len() as u16).u16(20).u16(0).u16(4 + 4 * axes.len() as u16);
-    let tags = ["wght", "wdth", "opsz", "slnt", "XAAA", "XAAB", "XAAC", "XAAD"];
-    for (i, a) in axes.iter().enumerate() {
-        w.tag(tags[i % tags.len()]).i32(a[0]).i32(a[1]).i32(a[2]).u16(0).u16(256 + i as u16);
+/// Layout of an fvar table: header fields and the position of every record.
+#[derive(Clone, Debug)]
+struct Layout {
+    off: usize,
+    asz: usize,
+    isz: usize,
+    ninst: usize,
+    apos: Vec<usize>,
+    ipos: Vec<usize>,
+    len: usize,
+}
+
+impl Layout {
+    /// The harness' own arithmetic, used for recorded (random, font) tables only; generated cases carry
+    /// the positions computed by TLC.
+    fn compute(off: usize, asz: usize, post: bool, ninst: usize, naxes: usize) -> Layout {
+        let isz = 4 * naxes + 4 + if post { 2 } else { 0 };
+        let inst0 = off + naxes * asz;
+        Layout {
+            off,
+            asz,
+            isz,
+            ninst,
+            apos: (0..naxes).map(|i| off + i * asz).collect(),
+            ipos: (0..ninst).map(|j| inst0 + j * isz).collect(),
+            len: inst0 + ninst * isz,
+        }
     }
-    w.done()
+    fn std(naxes: usize) -> Layout {
+        Layout::compute(16, 20, false, 0, naxes)
+    }
+    fn from_json(v: &Value) -> Layout {
+        let us = |x: &Value| x.as_u64().unwrap() as usize;
+        let arr = |x: &Value| x.as_array().unwrap().iter().map(|y| y.as_u64().unwrap() as usize).collect();
+        Layout {
+            off: us(&v["off"]),
+            asz: us(&v["asz"]),
+            isz: us(&v["isz"]),
+            ninst: us(&v["ninst"]),
+            apos: arr(&v["apos"]),
+            ipos: arr(&v["ipos"]),
+            len: us(&v["len"]),
+        }
+    }
+    fn json(&self) -> Value {
+        json!([self.off, self.asz, self.isz, self.ninst])
+    }
+    fn is_std(&self) -> bool {
+        self.off == 16 && self.asz == 20 && self.ninst == 0
+    }
+}
+
+const AXIS_TAGS: [&str; 8] = ["wght", "wdth", "opsz", "slnt", "XAAA", "XAAB", "XAAC", "XAAD"];
+
+/// One instance record per layout slot: coordinates rotate through min / default / max of the axes.
+fn instance_coords(axes: &[Axis], j: usize) -> Vec<i32> {
+    axes.iter().enumerate().map(|(k, a)| a[(j + k) % 3]).collect()
+}
+
+fn put(buf: &mut [u8], at: usize, bytes: &[u8]) {
+    buf[at..at + bytes.len()].copy_from_slice(bytes);
+}
+
+/// fvar table bytes: header, axis records at `apos`, instance records at `ipos`; every byte that
+/// belongs to no field (padding before the axis array, the tail of wide axis records) is part of a
+/// repeating decoy axis record (tag DCOY, -1.0 / 0.0 / +1.0), so that a reader that looks in the wrong
+/// place finds a plausible, different axis.
+fn fvar_bytes(axes: &[Axis], lay: &Layout) -> Vec<u8> {
+    let mut decoy = W::new();
+    decoy.tag("DCOY").i32(-65536).i32(0).i32(65536).u16(0).u16(999);
+    let decoy = decoy.done();
+    let mut b: Vec<u8> = (0..lay.len).map(|i| decoy[i % decoy.len()]).collect();
+    let mut h = W::new();
+    h.u16(1).u16(0).u16(lay.off as u16).u16(2).u16(axes.len() as u16).u16(lay.asz as u16).u16(lay.ninst as u16).u16(lay.isz as u16);
+    put(&mut b, 0, &h.done());
+    for (i, a) in axes.iter().enumerate() {
+        let mut w = W::new();
+        w.tag(AXIS_TAGS[i % AXIS_TAGS.len()]).i32(a[0]).i32(a[1]).i32(a[2]).u16(0).u16(256 + i as u16);
+        put(&mut b, lay.apos[i], &w.done());
+    }
+    for j in 0..lay.ninst {
+        let mut w = W::new();
+        w.u16(300 + j as u16).u16(0);
+        for c in instance_coords(axes, j) {
+            w.i32(c);
+        }
+        if lay.isz > 4 * axes.len() + 4 {
+            w.u16(400 + j as u16);
+        }
+        put(&mut b, lay.ipos[j], &w.done());
+    }
+    b
 }
 
 fn avar_bytes(maps: &[Map]) -> Vec<u8> {
@@ -121,8 +214,40 @@ impl Rec {
     }
 
     /// A group of tuples over one (axes, maps) pair through FvarTable::normalize.
-    fn normalize_group(&mut self, case: &str, axes: &[Axis], avar: bool, maps: &[Map], tuples: &[Vec<i32>]) {
-        let fb = fvar_bytes(axes);
+    /// What FvarTable::read, axes() and instances() see in a table.
+    fn fvar_read(&mut self, case: &str, fvar: &[u8]) {
+        self.calls += 1;
+        let r = guarded(|| -> Result<(Vec<Value>, Vec<Value>), String> {
+            let t = ReadScope::new(fvar).read::<FvarTable<'_>>().map_err(|e| format!("fvar:{:?}", e))?;
+            let axes: Vec<Value> = t
+                .axes()
+                .map(|a| {
+                    json!([a.axis_tag >> 16, a.axis_tag & 0xFFFF, a.min_value.raw_value(), a.default_value.raw_value(),
+                           a.max_value.raw_value(), a.flags, a.axis_name_id])
+                })
+                .collect();
+            let mut insts = Vec::new();
+            for i in t.instances() {
+                let i = i.map_err(|e| format!("instance:{:?}", e))?;
+                insts.push(json!({"sub": i.subfamily_name_id, "flags": i.flags,
+                                  "coords": i.coordinates.iter().map(|c| c.raw_value()).collect::<Vec<i32>>(),
+                                  "ps": i.post_script_name_id.map(i64::from).unwrap_or(-1)}));
+            }
+            Ok((axes, insts))
+        });
+        let (ok, err, axes, insts) = match r {
+            Outcome::Returned(Ok((a, i))) => (true, String::new(), a, i),
+            Outcome::Returned(Err(e)) => (false, e, vec![], vec![]),
+            Outcome::Panicked(m) => {
+                self.panics += 1;
+                (false, format!("Panic:{}", panic_key(&m)), vec![], vec![])
+            }
+        };
+        self.ev(case, "FvarRead", json!({"bytes": fvar}), json!({"ok": ok, "err": err, "axes": axes, "insts": insts}));
+    }
+
+    fn normalize_group(&mut self, case: &str, axes: &[Axis], avar: bool, maps: &[Map], tuples: &[Vec<i32>], lay: &Layout) {
+        let fb = fvar_bytes(axes, lay);
         let ab = if avar { Some(avar_bytes(maps)) } else { None };
         let (mut ok, mut err, mut outs) = (Vec::new(), Vec::new(), Vec::new());
         for t in tuples {
@@ -148,13 +273,13 @@ impl Rec {
             case,
             "Normalize",
             json!({"axes": axes, "avar": avar, "maps": maps_json(if avar { maps } else { &no_maps }),
-                   "tuples": tuples, "via": "normalize"}),
+                   "tuples": tuples, "via": "normalize", "lay": lay.json()}),
             json!({"ok": ok, "err": err, "outs": outs}),
         );
     }
 
-    fn length_probe(&mut self, case: &str, axes: &[Axis], avar: bool, maps: &[Map], len: usize) {
-        let fb = fvar_bytes(axes);
+    fn length_probe(&mut self, case: &str, axes: &[Axis], avar: bool, maps: &[Map], len: usize, lay: &Layout) {
+        let fb = fvar_bytes(axes, lay);
         let ab = if avar { Some(avar_bytes(maps)) } else { None };
         let tuple: Vec<i32> = (0..len).map(|k| axes.get(k).map(|a| a[1]).unwrap_or(0)).collect();
         self.calls += 1;
@@ -219,10 +344,14 @@ fn replay(cases: &str, out: &str) {
             .collect();
         let vs: Vec<i32> = c["vs"].as_array().unwrap().iter().map(|x| x.as_i64().unwrap() as i32).collect();
         let (axes, maps, tuples) = place(c["place"].as_u64().unwrap(), ax, &map, &vs);
+        let lay = Layout::from_json(&c["lay"]);
         let case = format!("g{}", ci);
-        r.normalize_group(&case, &axes, avar, &maps, &tuples);
+        r.normalize_group(&case, &axes, avar, &maps, &tuples, &lay);
+        if !lay.is_std() || ci % 16 == 0 {
+            r.fvar_read(&case, &fvar_bytes(&axes, &lay));
+        }
         for len in [0usize, axes.len().saturating_sub(1), axes.len(), axes.len() + 1, axes.len() + 5] {
-            r.length_probe(&case, &axes, avar, &maps, len);
+            r.length_probe(&case, &axes, avar, &maps, len, &lay);
         }
     }
     let n = r.w.n;
@@ -254,9 +383,58 @@ fn rand_axis(rng: &mut StdRng) -> Axis {
     [v[0] as i32, v[1] as i32, v[2] as i32]
 }
 
+/// A to-coordinate anywhere in the 2.14 range, with the interesting values over-represented.
+fn rand_to(rng: &mut StdRng) -> i16 {
+    match rng.gen_range(0..8) {
+        0 => [-32768i16, -16385, -16384, -1, 0, 1, 16384, 16385, 32767][rng.gen_range(0..9)],
+        1 | 2 => rng.gen_range(-32768i32..=32767) as i16,
+        3 => rng.gen_range(16384i32..=20000) as i16,
+        4 => rng.gen_range(-20000i32..=-16384) as i16,
+        _ => rng.gen_range(-16384i32..=16384) as i16,
+    }
+}
+
+/// A segment map of the general class: from-coordinates in non-decreasing order (duplicates
+/// allowed, beyond -1/+1 now and then), to-coordinates anywhere (decreasing and flat segments), with
+/// or without the -1 / 0 / +1 records, of 1 .. 7 records.
+fn rand_general_map(rng: &mut StdRng) -> Map {
+    let n = rng.gen_range(0..5);
+    let mut fs: Vec<i16> = (0..n)
+        .map(|_| match rng.gen_range(0..8) {
+            0 => [-16384i16, -16383, -1, 0, 1, 16383, 16384][rng.gen_range(0..7)],
+            1 => rng.gen_range(-32768i32..=32767) as i16,
+            _ => rng.gen_range(-16384i32..=16384) as i16,
+        })
+        .collect();
+    if n >= 2 && rng.gen_range(0..4) == 0 {
+        fs[1] = fs[0]; // duplicate from-coordinate
+    }
+    let keep = rng.gen_range(0..8u8); // which of the -1 / 0 / +1 records are present
+    let keep = if rng.gen_range(0..2) == 0 { 7 } else { keep };
+    let mut m: Map = fs.into_iter().map(|f| (f, rand_to(rng))).collect();
+    if rng.gen_range(0..3) == 0 && m.len() >= 2 {
+        m[1].1 = m[0].1; // flat
+    }
+    for (bit, f) in [(1u8, -16384i16), (2, 0), (4, 16384)] {
+        if keep & bit != 0 {
+            let t = if rng.gen_range(0..6) == 0 { rand_to(rng) } else { f };
+            m.push((f, t));
+        }
+    }
+    // stable sort by from-coordinate: records on one from-coordinate keep their random order
+    m.sort_by_key(|r| r.0);
+    if m.is_empty() {
+        m.push((rng.gen_range(-16384i32..=16384) as i16, rand_to(rng)));
+    }
+    m
+}
+
 fn rand_map(rng: &mut StdRng) -> Map {
     if rng.gen_range(0..8) == 0 {
         return vec![];
+    }
+    if rng.gen_range(0..5) < 2 {
+        return rand_general_map(rng);
     }
     let mut side = |rng: &mut StdRng| -> Vec<(i16, i16)> {
         // interior knots on (0, 16384): strictly increasing from, non-decreasing to
@@ -301,6 +479,14 @@ fn rand_values(rng: &mut StdRng, ax: Axis, map: &Map, n: usize) -> Vec<i32> {
     for _ in 0..n {
         let v = match rng.gen_range(0..10) {
             0 => [mn, df, mx][rng.gen_range(0..3)] + rng.gen_range(-2i64..3),
+            5 if map.len() >= 2 => {
+                // strictly inside a segment
+                let k = rng.gen_range(0..map.len() - 1);
+                let (f0, f1) = (map[k].0 as i64, map[k + 1].0 as i64);
+                let f = if f1 > f0 { rng.gen_range(f0..=f1) } else { f0 };
+                let span = if f < 0 { df - mn } else { mx - df };
+                df + (f * span).div_euclid(16384) + rng.gen_range(-1i64..2)
+            }
             1 if !map.is_empty() => {
                 let f = map[rng.gen_range(0..map.len())].0 as i64;
                 let span = if f < 0 { df - mn } else { mx - df };
@@ -332,10 +518,20 @@ fn record_random(r: &mut Rec, seed: u64, groups: usize) {
         let nt = 24;
         let cols: Vec<Vec<i32>> = (0..na).map(|j| rand_values(&mut rng, axes[j], &maps[j], nt)).collect();
         let tuples: Vec<Vec<i32>> = (0..nt).map(|i| (0..na).map(|j| cols[j][i]).collect()).collect();
+        let lay = if rng.gen_range(0..2) == 0 {
+            Layout::std(na)
+        } else {
+            let off = [16usize, 16, 18, 20, 24, 36, 64][rng.gen_range(0..7)] + rng.gen_range(0..2) * rng.gen_range(0..9);
+            let asz = [20usize, 20, 22, 24, 40][rng.gen_range(0..5)] + rng.gen_range(0..2) * rng.gen_range(0..7);
+            Layout::compute(off, asz, rng.gen_range(0..2) == 1, rng.gen_range(0..5), na)
+        };
         let case = format!("r{}", g);
-        r.normalize_group(&case, &axes, avar, &maps, &tuples);
+        r.normalize_group(&case, &axes, avar, &maps, &tuples, &lay);
+        if !lay.is_std() {
+            r.fvar_read(&case, &fvar_bytes(&axes, &lay));
+        }
         if g % 16 == 0 {
-            r.length_probe(&case, &axes, avar, &maps, rng.gen_range(0..6));
+            r.length_probe(&case, &axes, avar, &maps, rng.gen_range(0..6), &lay);
         }
     }
 }
@@ -352,9 +548,155 @@ fn grid(ax: Axis) -> Vec<i32> {
     v.into_iter().map(|x| x.clamp(i32::MIN as i64, i32::MAX as i64) as i32).collect()
 }
 
-fn record_fonts(r: &mut Rec, with_instance: bool) -> (usize, usize) {
+/// Drive one font (its bytes): FvarTable::normalize over a grid per axis on the font's own fvar / avar
+/// bytes, and the tuple returned by variations::instance on a thinner grid.  Returns the number of
+/// instance calls, None when the font has no usable fvar.
+fn drive_font(r: &mut Rec, name: &str, data: &[u8], with_instance: bool) -> Option<usize> {
+    let dir = read_sfnt_dir(data, 0)?;
+    let fvar_b = table_bytes(data, &dir, "fvar")?;
+    let axes = parse_fvar(fvar_b)?;
+    if axes.is_empty() {
+        return None;
+    }
+    let avar_b = table_bytes(data, &dir, "avar");
+    let maps: Vec<Map> = match avar_b.and_then(parse_avar) {
+        Some(m) if m.len() == axes.len() => m,
+        Some(_) => return None, // avar disagrees with fvar about the axis count: malformed, not C13's
+        None => axes.iter().map(|_| Vec::new()).collect(),
+    };
+    let mut n_instance = 0;
+    r.fvar_read(&format!("font/{}/fvar", name), fvar_b);
+    let lay_json = json!([be16(fvar_b, 4), be16(fvar_b, 10), be16(fvar_b, 14), be16(fvar_b, 12)]);
+    // one group per axis: that axis runs over its grid, the others stay at their defaults
+    for j in 0..axes.len() {
+        let tuples: Vec<Vec<i32>> = grid(axes[j])
+            .into_iter()
+            .map(|v| (0..axes.len()).map(|k| if k == j { v } else { axes[k][1] }).collect())
+            .collect();
+        let case = format!("font/{}/axis{}", name, j);
+        // through the real table bytes of the font
+        let (mut ok, mut err, mut outs) = (Vec::new(), Vec::new(), Vec::new());
+        for t in &tuples {
+            r.calls += 1;
+            match call_normalize(fvar_b, avar_b, t) {
+                Ok(v) => {
+                    ok.push(true);
+                    err.push(String::new());
+                    outs.push(v);
+                }
+                Err(e) => {
+                    ok.push(false);
+                    err.push(e);
+                    outs.push(vec![]);
+                }
+            }
+        }
+        r.ev(
+            &case,
+            "Normalize",
+            json!({"axes": axes, "avar": avar_b.is_some(), "maps": maps_json(&maps), "tuples": tuples, "via": "normalize",
+                   "lay": lay_json}),
+            json!({"ok": ok, "err": err, "outs": outs}),
+        );
+        if !with_instance {
+            continue;
+        }
+        // the tuple returned by variations::instance, on a thinner grid
+        let thin: Vec<Vec<i32>> = tuples.iter().step_by(4).cloned().collect();
+        let (mut ok, mut err, mut outs) = (Vec::new(), Vec::new(), Vec::new());
+        for t in &thin {
+            r.calls += 1;
+            n_instance += 1;
+            let res = guarded(|| -> Result<Vec<i64>, String> {
+                let fd = ReadScope::new(data).read::<FontData<'_>>().map_err(|e| format!("{:?}", e))?;
+                let provider = fd.table_provider(0).map_err(|e| format!("{:?}", e))?;
+                let user: Vec<Fixed> = t.iter().map(|v| Fixed::from_raw(*v)).collect();
+                let (_font, tuple) =
+                    allsorts::variations::instance(&provider, &user).map_err(|e| format!("{:?}", e))?;
+                Ok(tuple.iter().map(|x| x.raw_value() as i64).collect())
+            });
+            match res {
+                Outcome::Returned(Ok(v)) => {
+                    ok.push(true);
+                    err.push(String::new());
+                    outs.push(v);
+                }
+                Outcome::Returned(Err(e)) => {
+                    ok.push(false);
+                    err.push(e);
+                    outs.push(vec![]);
+                }
+                Outcome::Panicked(m) => {
+                    ok.push(false);
+                    err.push(format!("Panic:{}", panic_key(&m)));
+                    outs.push(vec![]);
+                }
+            }
+        }
+        // an instancing failure is C12's business (e.g. CFF2 not supported): record only the
+        // tuples that came back
+        let keep: Vec<usize> = (0..thin.len()).filter(|&k| ok[k]).collect();
+        if !keep.is_empty() {
+            r.ev(
+                &format!("{}/instance", case),
+                "Normalize",
+                json!({"axes": axes, "avar": avar_b.is_some(), "maps": maps_json(&maps),
+                       "tuples": keep.iter().map(|&k| thin[k].clone()).collect::<Vec<_>>(), "via": "instance",
+                       "lay": lay_json}),
+                json!({"ok": keep.iter().map(|_| true).collect::<Vec<_>>(),
+                       "err": keep.iter().map(|_| "").collect::<Vec<_>>(),
+                       "outs": keep.iter().map(|&k| outs[k].clone()).collect::<Vec<_>>()}),
+            );
+        }
+        let _ = err;
+    }
+    Some(n_instance)
+}
+
+/// The general segment maps the re-laid-out fonts are given, one per axis in rotation.
+fn variant_maps(n: usize, salt: usize) -> Vec<Map> {
+    let pool: Vec<Map> = vec![
+        vec![(-16384, -16384), (0, 0), (8192, 20480), (16384, 16384)],
+        vec![(-16384, -16384), (-8192, -2048), (-4096, -12288), (0, 0), (4096, 12288), (8192, 4096), (16384, 16384)],
+        vec![(-16384, -20000), (0, 0), (16384, 20000)],
+        vec![(0, 0), (8192, 12288), (16384, 16384)],
+        vec![(-16384, -16384), (-6000, -32768), (0, 0), (8192, 4096), (8192, 12288), (16384, 16384)],
+        vec![(0, 4096)],
+    ];
+    (0..n).map(|k| pool[(k + salt) % pool.len()].clone()).collect()
+}
+
+/// The same font with its fvar table written in another layout and an avar table of general maps.
+fn variant_font(data: &[u8], salt: usize) -> Option<Vec<u8>> {
+    let dir = read_sfnt_dir(data, 0)?;
+    let axes = parse_fvar(table_bytes(data, &dir, "fvar")?)?;
+    if axes.is_empty() || axes.iter().any(|a| a[0] > a[1] || a[1] > a[2]) {
+        return None;
+    }
+    let lays = [(20usize, 20usize, false, 1usize), (16, 24, true, 2), (36, 28, true, 0), (18, 20, false, 3), (16, 40, false, 1)];
+    let (off, asz, post, ninst) = lays[salt % lays.len()];
+    let lay = Layout::compute(off, asz, post, ninst, axes.len());
+    let fvar = fvar_bytes(&axes, &lay);
+    let avar = avar_bytes(&variant_maps(axes.len(), salt));
+    let mut tables: Vec<(String, Vec<u8>)> = Vec::new();
+    for rec in &dir.records {
+        let tag = tag_str(rec.0);
+        let bytes = data.get(rec.2 as usize..(rec.2 as usize).checked_add(rec.3 as usize)?)?;
+        match tag.as_str() {
+            "fvar" => tables.push((tag, fvar.clone())),
+            "avar" => {}
+            _ => tables.push((tag, bytes.to_vec())),
+        }
+    }
+    tables.push(("avar".to_string(), avar));
+    tables.sort_by_key(|t| vh::fontgen::tag_u32(&t.0));
+    Some(build_sfnt(dir.version, &tables))
+}
+
+fn record_fonts(r: &mut Rec, with_instance: bool) -> (usize, usize, usize) {
     let mut n_fonts = 0;
     let mut n_instance = 0;
+    let mut n_variant_instance = 0;
     for path in repo_fonts() {
         let data = match std::fs::read(&path) {
             Ok(d) => d,
@@ -363,103 +705,15 @@ fn record_fonts(r: &mut Rec, with_instance: bool) -> (usize, usize) {
         if data.len() < 12 || !matches!(be32(&data, 0), Some(0x00010000) | Some(0x4F54544F) | Some(0x74727565)) {
             continue;
         }
-        let Some(dir) = read_sfnt_dir(&data, 0) else { continue };
-        let Some(fvar_b) = table_bytes(&data, &dir, "fvar") else { continue };
-        let Some(axes) = parse_fvar(fvar_b) else { continue };
-        if axes.is_empty() {
-            continue;
-        }
-        let avar_b = table_bytes(&data, &dir, "avar");
-        let maps: Vec<Map> = match avar_b.and_then(parse_avar) {
-            Some(m) if m.len() == axes.len() => m,
-            Some(_) => continue, // avar disagrees with fvar about the axis count: malformed, not C13's
-            None => axes.iter().map(|_| Vec::new()).collect(),
-        };
-        n_fonts += 1;
         let name = path.rsplit('/').next().unwrap_or(&path).to_string();
-        // one group per axis: that axis runs over its grid, the others stay at their defaults
-        for j in 0..axes.len() {
-            let tuples: Vec<Vec<i32>> = grid(axes[j])
-                .into_iter()
-                .map(|v| (0..axes.len()).map(|k| if k == j { v } else { axes[k][1] }).collect())
-                .collect();
-            let case = format!("font/{}/axis{}", name, j);
-            // through the real table bytes of the font
-            let (mut ok, mut err, mut outs) = (Vec::new(), Vec::new(), Vec::new());
-            for t in &tuples {
-                r.calls += 1;
-                match call_normalize(fvar_b, avar_b, t) {
-                    Ok(v) => {
-                        ok.push(true);
-                        err.push(String::new());
-                        outs.push(v);
-                    }
-                    Err(e) => {
-                        ok.push(false);
-                        err.push(e);
-                        outs.push(vec![]);
-                    }
-                }
-            }
-            r.ev(
-                &case,
-                "Normalize",
-                json!({"axes": axes, "avar": avar_b.is_some(), "maps": maps_json(&maps), "tuples": tuples, "via": "normalize"}),
-                json!({"ok": ok, "err": err, "outs": outs}),
-            );
-            if !with_instance {
-                continue;
-            }
-            // the tuple returned by variations::instance, on a thinner grid
-            let thin: Vec<Vec<i32>> = tuples.iter().step_by(4).cloned().collect();
-            let (mut ok, mut err, mut outs) = (Vec::new(), Vec::new(), Vec::new());
-            for t in &thin {
-                r.calls += 1;
-                n_instance += 1;
-                let res = guarded(|| -> Result<Vec<i64>, String> {
-                    let fd = ReadScope::new(&data).read::<FontData<'_>>().map_err(|e| format!("{:?}", e))?;
-                    let provider = fd.table_provider(0).map_err(|e| format!("{:?}", e))?;
-                    let user: Vec<Fixed> = t.iter().map(|v| Fixed::from_raw(*v)).collect();
-                    let (_font, tuple) =
-                        allsorts::variations::instance(&provider, &user).map_err(|e| format!("{:?}", e))?;
-                    Ok(tuple.iter().map(|x| x.raw_value() as i64).collect())
-                });
-                match res {
-                    Outcome::Returned(Ok(v)) => {
-                        ok.push(true);
-                        err.push(String::new());
-                        outs.push(v);
-                    }
-                    Outcome::Returned(Err(e)) => {
-                        ok.push(false);
-                        err.push(e);
-                        outs.push(vec![]);
-                    }
-                    Outcome::Panicked(m) => {
-                        ok.push(false);
-                        err.push(format!("Panic:{}", panic_key(&m)));
-                        outs.push(vec![]);
-                    }
-                }
-            }
-            // an instancing failure is C12's business (e.g. CFF2 not supported): record only the
-            // tuples that came back
-            let keep: Vec<usize> = (0..thin.len()).filter(|&k| ok[k]).collect();
-            if !keep.is_empty() {
-                r.ev(
-                    &format!("{}/instance", case),
-                    "Normalize",
-                    json!({"axes": axes, "avar": avar_b.is_some(), "maps": maps_json(&maps),
-                           "tuples": keep.iter().map(|&k| thin[k].clone()).collect::<Vec<_>>(), "via": "instance"}),
-                    json!({"ok": keep.iter().map(|_| true).collect::<Vec<_>>(),
-                           "err": keep.iter().map(|_| "").collect::<Vec<_>>(),
-                           "outs": keep.iter().map(|&k| outs[k].clone()).collect::<Vec<_>>()}),
-                );
-            }
-            let _ = err;
+        let Some(k) = drive_font(r, &name, &data, with_instance) else { continue };
+        n_fonts += 1;
+        n_instance += k;
+        if let Some(v) = variant_font(&data, n_fonts) {
+            n_variant_instance += drive_font(r, &format!("{}~relaid", name), &v, with_instance).unwrap_or(0);
         }
     }
-    (n_fonts, n_instance)
+    (n_fonts, n_instance, n_variant_instance)
 }
 
 /// All 65 536 F2Dot14 values through the conversions, in batches of 256.
@@ -517,7 +771,7 @@ fn record(seed: u64, groups: usize, out: &str) {
     let mut r = Rec { w: NdWriter::create(out), i: 0, calls: 0, panics: 0 };
     record_random(&mut r, seed, groups);
     let random_events = r.w.n;
-    let (fonts, inst) = record_fonts(&mut r, true);
+    let (fonts, inst, vinst) = record_fonts(&mut r, true);
     let font_events = r.w.n - random_events;
     record_conversions(&mut r);
     let n = r.w.n;
@@ -525,7 +779,7 @@ fn record(seed: u64, groups: usize, out: &str) {
     println!(
         "{}",
         json!({"events": n, "random_groups": groups, "random_events": random_events, "variable_fonts": fonts,
-               "font_events": font_events, "instance_calls": inst, "calls": r.calls, "panics": r.panics})
+               "font_events": font_events, "instance_calls": inst, "variant_instance_calls": vinst, "calls": r.calls, "panics": r.panics})
     );
 }
 
